@@ -692,6 +692,10 @@ func (ex *Exec) closureEffects(mc *ssa.MakeClosure, ms *modSet, outer map[*ssa.F
 }
 
 func (ex *Exec) contractEffects(ct *Contract, ms *modSet, callee *ssa.Function, c *ssa.CallCommon, depth int) {
+	if ct.ModAll {
+		ms.allHeap = true
+		return
+	}
 	if ct.Pure || (ct.HasMod && len(ct.Modifies) == 0) {
 		return
 	}
@@ -926,17 +930,7 @@ func (ex *Exec) targetRefs(fr *Frame, st *State, ms *modSet, bases []ssa.Value, 
 	seen := map[string]bool{}
 	var out []string
 	for _, b := range bases {
-		v, ok := fr.vals[b]
-		if !ok {
-			// a load from a local that the loop never assigns denotes the same object in every iteration
-			if u, isLoad := b.(*ssa.UnOp); isLoad && u.Op == token.MUL {
-				if a, isAlloc := u.X.(*ssa.Alloc); isAlloc && !ms.cells[a] && !ex.isHeapAlloc(a) {
-					if cv, has := st.cells[a]; has {
-						v, ok = cv, true
-					}
-				}
-			}
-		}
+		v, ok := ex.stableValue(fr, st, ms, b, 0)
 		if !ok {
 			return nil, false // defined inside the loop
 		}
@@ -950,4 +944,47 @@ func (ex *Exec) targetRefs(fr *Frame, st *State, ms *modSet, bases []ssa.Value, 
 		}
 	}
 	return out, true
+}
+
+// stableValue: the value of an SSA expression that denotes the same object in every iteration of the loop being
+// havocked: computed before the loop, a load from a local the loop never assigns, or a load from a field (that the
+// loop never writes) of such an object.
+func (ex *Exec) stableValue(fr *Frame, st *State, ms *modSet, b ssa.Value, depth int) (Value, bool) {
+	if v, ok := fr.vals[b]; ok {
+		return v, true
+	}
+	if depth > 4 || ms.allHeap {
+		return nil, false
+	}
+	u, isLoad := b.(*ssa.UnOp)
+	if !isLoad || u.Op != token.MUL {
+		return nil, false
+	}
+	switch x := u.X.(type) {
+	case *ssa.Alloc:
+		if !ms.cells[x] && !ms.allCell && !ex.isHeapAlloc(x) {
+			if cv, has := st.cells[x]; has {
+				return cv, true
+			}
+		}
+	case *ssa.FieldAddr:
+		base, ok := ex.stableValue(fr, st, ms, x.X, depth+1)
+		if !ok {
+			return nil, false
+		}
+		bt, ok := base.(Term)
+		if !ok {
+			return nil, false
+		}
+		pt, isPtr := x.X.Type().Underlying().(*types.Pointer)
+		if !isPtr {
+			return nil, false
+		}
+		comp, ft := ex.heapCompName(pt.Elem(), x.Field)
+		if _, written := ms.comps[comp]; written {
+			return nil, false
+		}
+		return Term{S: sx("select", ex.heapGet(st, comp, ft), bt.S), T: ft}, true
+	}
+	return nil, false
 }
